@@ -51,14 +51,14 @@ var kinds = []string{"user", "org", "dev"}
 var flagKeys = []string{"f0", "f1", "f2", "f3", "f4", "f5"}
 var segKeys = []string{"s0", "s1", "s2", "s3", "s4", "s5"}
 
-var strPool = []string{"alice@x.com", "bob", "a", "b", "", "x.com", "Alice", "ab", "zzz", "user", "org", "日本", "a/b", "~t"}
+var strPool = []string{"alice@x.com", "bob", "a", "b", "", "x.com", "Alice", "ab", "zzz", "user", "org", "日本", "a/b", "~t", "\x00", "a\x00b", "\x7f\x01"}
 var numPool = []float64{0, 1, -1, 42, 42.5, 1e10, 9007199254740992, -9007199254740992, 0.1, 99.99, 3, 1577836800000,
 	253402300799000, -62135596800000, 1e30, -0.0, 7, 100}
 var datePool = []string{"2020-01-01T00:00:00Z", "2020-01-01T01:00:00+01:00", "2019-12-31T23:59:59.999999999Z",
 	"0001-01-01T00:00:00Z", "9999-12-31T23:59:59.999999999Z", "2020-01-01t00:00:00z", "2020-01-01T00:00:00.5-07:30",
 	"2020-13-01T00:00:00Z", "2020-01-01", "2020-01-01T00:00:00", "2020-02-30T00:00:00Z", "2020-1-01T00:00:00Z",
 	"2020-01-01T24:00:00Z", "2020-01-01T00:00:60Z", "not a date", "1970-01-01T00:00:00Z", "2262-04-12T00:00:00Z",
-	"0000-01-01T00:00:00Z", "2020-01-01T00:00:00+99:00", "2020-01-01T0:00:00Z"}
+	"0000-01-01T00:00:00Z", "2020-01-01T00:00:00+99:00", "2020-01-01T0:00:00Z", "2021-06-\x0009T18:53:52Z", "\x00", "2020-01-01T00:00:00Z\x00", "2020-01-01T00:00:00-03:30", "2020-01-01T00:00:00-00:45"}
 var semverPool = []string{"1.0.0", "1.0", "1", "1.0.0-rc.1", "1.0.0-rc.2", "1.0.0-rc.10", "1.0.0+build", "2.0.0", "01.0.0",
 	"1.0.0-rc.1.x", "1.0.0-alpha", "1.0.0-1", "0.9.9", "1.0.1", "1.1", "x", "1.0.0-", "1.0.0-rc..1", "1.0.0-0rc", "1.0.0-00",
 	"10.2.3", "1.0.0-rc.1+b.7"}
@@ -154,6 +154,9 @@ func (w *World) attrValue(name string) *J {
 		return JNum(numPool[w.r.Intn(len(numPool))])
 	case "tags":
 		a := &J{K: 'a', A: []*J{}}
+		if w.r.P(0.25) {
+			return a // an attribute that exists but holds no element
+		}
 		for i := 0; i < w.r.Intn(4); i++ {
 			a.A = append(a.A, w.anyValue(1))
 		}
@@ -294,6 +297,18 @@ func (w *World) genClause(segOK bool) *J {
 		kind = r.Pick(kinds)
 	}
 	attr := r.Pick(append([]string{"key", "name", "anonymous"}, attrNames...))
+	if r.P(0.6) && w.real.Err() == nil { // mostly an attribute that some individual context really has
+		ic := w.real.IndividualContextByIndex(r.Intn(w.real.IndividualContextCount()))
+		if names := ic.GetOptionalAttributeNames(nil); len(names) > 0 {
+			attr = names[r.Intn(len(names))]
+			if r.P(0.6) {
+				kind = string(ic.Kind())
+				if kind == "user" && r.P(0.5) {
+					kind = ""
+				}
+			}
+		}
+	}
 	if r.P(p.PKindAttr) {
 		attr = "kind"
 	}
@@ -502,10 +517,7 @@ func (w *World) genTargets(n int, withKind bool, nvars int) *J {
 	arr := &J{K: 'a', A: []*J{}}
 	for i := 0; i < n; i++ {
 		t := JObj()
-		vals := &J{K: 'a', A: []*J{}}
-		for j := 0; j < r.Intn(4); j++ {
-			vals.A = append(vals.A, JStr(r.Pick(ctxKeys)))
-		}
+		vals := strArr(r, r.Intn(4))
 		if withKind {
 			k := r.Pick([]string{"user", "user", "org", "dev", ""})
 			if k != "" || r.P(0.5) {
@@ -612,6 +624,16 @@ func (w *World) genSegTargets(n int) *J {
 
 func strArr(r *Rng, n int) *J {
 	a := &J{K: 'a', A: []*J{}}
+	if r.P(0.06) { // long key lists (beyond any small-list threshold), half of them containing a context key
+		m := []int{17, 40, 130}[r.Intn(3)]
+		for i := 0; i < m; i++ {
+			a.A = append(a.A, JStr(fmt.Sprintf("k%d", i)))
+		}
+		if r.P(0.5) {
+			a.A[r.Intn(m)] = JStr(r.Pick(ctxKeys))
+		}
+		return a
+	}
 	for i := 0; i < n; i++ {
 		a.A = append(a.A, JStr(r.Pick(ctxKeys)))
 	}
@@ -866,10 +888,22 @@ func (w *World) addChain(c *EvalCase) {
 	// segments: d0 -> d1 -> ... -> d(n-1); the last one matches everyone (or closes a cycle)
 	sdepth := r.Range(1, w.p.Chain)
 	smode := r.Intn(4)
+	bigChain := r.P(0.25)
+	if bigChain && sdepth > 12 {
+		sdepth = 12
+	}
 	sk := func(i int) string { return fmt.Sprintf("d%d", i) }
 	for i := 0; i < sdepth; i++ {
 		s := JObj(KV{"key", JStr(sk(i))}, KV{"included", JArr()}, KV{"excluded", JArr()}, KV{"salt", JStr("")},
 			KV{"version", JInt(1)}, KV{"generation", JNull()})
+		if bigChain {
+			// unbounded segments for which the store has no answer: their rules decide, so the chain is followed
+			s.Replace("generation", JInt(7))
+			s.Set("unbounded", JBool(true))
+			if len(w.ctx.Singles) > 0 {
+				s.Set("unboundedContextKind", JStr(w.ctx.Singles[0].Kind))
+			}
+		}
 		var cl *J
 		if i+1 < sdepth {
 			vals := JArr(JStr(sk(i + 1)))
